@@ -442,7 +442,7 @@ def _random_op(E, rng, n, k, cur):
     if k == "right_crop":
         if rng.random() < 0.15:
             return dict(k=k, n=1, dflt=True)
-        return dict(k=k, n=rng.choice([0, 1, 1, 2, n, n + 1, n + 3, rng.randint(0, n + 1)]))
+        return dict(k=k, n=rng.choice([0, 1, 1, 2, n, n + 1, n + 3, rng.randint(0, n + 1), -1, -rng.randint(1, n + 2)]))
     if k == "set_length":
         return dict(k=k, n=rng.randint(0, n + 3))
     if k == "expand_tabs":
@@ -524,7 +524,7 @@ def shape(op):
     """Argument shape for signatures."""
     k = op["k"]
     if k == "right_crop":
-        return "n=%s" % ("0" if op["n"] == 0 else "pos")
+        return "n=%s" % ("0" if op["n"] == 0 else "neg" if op["n"] < 0 else "pos")
     if k == "remove_suffix":
         return "suffix=%s" % ("empty" if not op["suffix"] else "nonempty")
     if k == "index":
@@ -576,7 +576,7 @@ def run(chk: Check):
         f_sp = pool.submit(tlc.model_check, "MC_TextSpans", cfg_text=spans_cfg.replace("MCDepth = 3", "MCDepth = %d" % chk.pick(3, 4)), workers=4, tag="c05sp",
                            require_actions=["New", "AppendA", "StylizeA", "PadA", "CropA", "SetLengthA", "TruncateA"])
         f_guard = {sw: pool.submit(tlc.model_check, "MC_TextSpans", cfg_text=spans_cfg.replace("%s = TRUE" % sw, "%s = FALSE" % sw), workers=2, tag="c05g")
-                   for sw in ("CropClamp", "StartClamp", "CtorLen")}      # each 9.10.0 behaviour must be caught by TLC
+                   for sw in ("CropClamp", "StartClamp", "CtorLen", "CropUpper")}      # each 9.10.0 behaviour must be caught by TLC
         f_ex = pool.submit(tlc.behaviours, "MC_TextOps", cfg_text=cfgt % 2, timeout=3000, tag="c05ex")
         f_sim = pool.submit(tlc.behaviours, "MC_TextOps", cfg_text=cfgt % 7, simulate="num=%d" % chk.pick(1500, 30000), depth=9,
                             seed=chk.seed + 1, timeout=3000, tag="c05sim")
@@ -596,7 +596,7 @@ def run(chk: Check):
             chk.add_tlc(rg, "M1-span-design-guard")
             if not rg.violated:
                 raise tlc.TLCFailure("vacuity guard: MC_TextSpans with %s = FALSE was not rejected" % sw)
-        chk.notes["span_design_defect_switches_caught"] = ["CropClamp", "StartClamp", "CtorLen"]
+        chk.notes["span_design_defect_switches_caught"] = ["CropClamp", "StartClamp", "CtorLen", "CropUpper"]
         behs, r2 = f_ex.result()
         chk.add_tlc(r2, "M2-exhaustive-depth-2")
         sims, r3 = f_sim.result()
